@@ -3,6 +3,7 @@ package main
 import (
 	"flag"
 	"fmt"
+	"golang.org/x/tools/go/ssa"
 	"os"
 	"runtime"
 	"sort"
@@ -10,7 +11,11 @@ import (
 	"sync"
 )
 
+var devCmds = map[string]func([]string){}
+
 func main() {
+	// type aliases (object.SymHash = uint64) must not produce distinct type names: heap arrays are keyed by type
+	os.Setenv("GODEBUG", "gotypesalias=0")
 	if len(os.Args) < 2 {
 		fmt.Fprintln(os.Stderr, "usage: gocv verify|check|list ...")
 		os.Exit(2)
@@ -57,6 +62,10 @@ func main() {
 	case "replay":
 		os.Exit(cmdReplay(os.Args[2:]))
 	default:
+		if f, ok := devCmds[os.Args[1]]; ok {
+			f(os.Args[2:])
+			return
+		}
 		fmt.Fprintln(os.Stderr, "unknown command", os.Args[1])
 		os.Exit(2)
 	}
@@ -225,4 +234,33 @@ func verifyAll(w *World, sp *Specs, mods *ModAnalysis, keys []string, families m
 	close(jobs)
 	wg.Wait()
 	return results
+}
+
+func init() {
+	devCmds["dyncalls"] = func(args []string) {
+		w, err := LoadWorld("/repo")
+		if err != nil {
+			panic(err)
+		}
+		cnt := map[string]int{}
+		for _, fn := range w.AllFuncs {
+			for _, b := range fn.Blocks {
+				for _, ins := range b.Instrs {
+					if c, ok := ins.(ssa.CallInstruction); ok {
+						cc := c.Common()
+						if cc.IsInvoke() || cc.StaticCallee() != nil {
+							continue
+						}
+						if _, isB := cc.Value.(*ssa.Builtin); isB {
+							continue
+						}
+						cnt[cc.Value.Type().String()+"   e.g. "+w.FuncKey[fn]]++
+					}
+				}
+			}
+		}
+		for _, k := range sortedKeys(cnt) {
+			fmt.Println(cnt[k], k)
+		}
+	}
 }
